@@ -28,6 +28,8 @@ CASES = ['success', 'success', 'worker', 'worker', 'diskfull', 'parent_io', 'par
          'stats_not_hdf5', 'stats_missing', 'markers_missing', 'markers_not_json', 'markers_no_root',
          'markers_unknown_gene', 'markers_disjoint', 'negative_raw', 'bad_normalization', 'leaf_drop_level',
          'duplicate_genes', 'output_dir_missing']
+OTF_CASES = ('success', 'worker', 'diskfull', 'parent_io', 'query_missing', 'query_truncated', 'query_not_hdf5',
+             'stats_no_sum', 'stats_not_hdf5', 'stats_missing', 'negative_raw', 'output_dir_missing')
 RULE = ('scenario = random directory layout (depth 1-4; names over letters, digits and . _ - + @ ~ # % , [ ] ( ) { } =) x '
         'one run class (success, worker death from the C14 grid, full disk on CSC input, parent I/O error at the k-th '
         'write event, or one class of invalid input) with cloud_safe=True; non-trivial = the run failed through the '
@@ -95,8 +97,17 @@ def gen(rng, tier, idx):
         mcfg['encoding'] = 'csc'
     scn = {'case': case, 'layout': layout, 'names': names, 'wp': wp, 'cfg': mcfg,
            'sched': common.draw_sched(rng), 'kcfg': common.draw_kernel_cfg(rng), 'seed': rng.randrange(2 ** 31)}
+    # one run in five goes through the on-the-fly-marker entry point, which sanitises its configuration itself
+    if case in OTF_CASES and rng.random() < 0.45:
+        from . import stages
+        o = stages.gen_stage(rng, 'otf')
+        o['cfg']['cloud_safe'] = True
+        o['wp']['n_query'] = rng.choice([2, 4, 6])
+        scn.update(entry='otf', wp=o['wp'], cfg=o['cfg'])
+        if case == 'diskfull':
+            scn['cfg']['encoding'] = 'csc'
     if case == 'worker':
-        scn['fault'] = {'worker': rng.randint(0, 2), 'mode': rng.choice(['kill', 'exit', 'raise']),
+        scn['fault'] = {'worker': rng.randint(0, 2) if scn.get('entry') != 'otf' else rng.randint(0, 9), 'mode': rng.choice(['kill', 'exit', 'raise']),
                         'point': rng.choice(['before', 'mid', 'after']), 'k': rng.randint(1, 3),
                         'code': rng.choice([1, 2, 3])}
     if case == 'parent_io':
@@ -181,7 +192,14 @@ def run(scn, sb):
         paths = {'stats': stats, 'markers': mk, 'query': qp}
         over = _corrupt(scn, sb, W, paths, rng)
         mcfg.update({k: v for k, v in over.items() if k in ('drop_level',)})
-        dcfg = common.mapping_driver_cfg(sb, paths, mcfg, tag=nm['tag'])
+        otf = scn.get('entry') == 'otf'
+        if otf:
+            from . import stages
+            dcfg = stages.otf_driver_cfg(sb, {'query': qp, 'stats': stats}, mcfg, sb.p('out'))
+            dcfg['hdf5_result_path'] = None
+            dcfg['log_path'] = None
+        else:
+            dcfg = common.mapping_driver_cfg(sb, paths, mcfg, tag=nm['tag'])
         if 'normalization' in over:
             dcfg['type_assignment']['normalization'] = over['normalization']
         if case == 'output_dir_missing':
@@ -200,7 +218,7 @@ def run(scn, sb):
                                    'errno': scn['fault']['errno']}
             KERNEL.parent_fault_fired = None
         try:
-            out, s = harness.run_call(sched, drivers.run_mapping, dcfg)
+            out, s = harness.run_call(sched, drivers.run_otf if otf else drivers.run_mapping, dcfg)
         finally:
             fired_parent = KERNEL.parent_fault_fired
             KERNEL.statvfs_full = False
@@ -228,7 +246,7 @@ def run(scn, sb):
             except Exception:
                 pass
         hp = dcfg['hdf5_result_path']
-        if os.path.exists(hp):
+        if hp is not None and os.path.exists(hp):
             try:
                 import h5py
                 with h5py.File(hp, 'r') as f:
@@ -238,7 +256,7 @@ def run(scn, sb):
             except Exception:
                 pass
         lp = dcfg['log_path']
-        if os.path.exists(lp):
+        if lp is not None and os.path.exists(lp):
             with open(lp, errors='replace') as f:
                 texts.append(('logfile', f.read()))
         n_scanned = 0
@@ -261,10 +279,12 @@ def run(scn, sb):
                     break
         res['probes']['bytes_scanned'] = n_scanned
         res['probes']['outcome_' + out[0]] = 1
+        if otf:
+            res['probes']['on_the_fly_entry_point'] = 1
         planted_ok = (out[0] == 'ok') == (case == 'success')
         res['nontrivial'] = bool(texts) and (planted_ok or case in ('worker', 'diskfull', 'parent_io',
                                                                      'duplicate_genes', 'output_dir_missing'))
-        res['key'] = model.canonical_json([scn['layout'], case, scn['cfg'], scn.get('fault')])
+        res['key'] = model.canonical_json([scn['layout'], case, scn.get('entry'), scn['cfg'], scn.get('fault')])
         res['sample'] = {'case': case, 'layout': scn['layout'], 'outcome': out[0],
                          'message': (out[1] or '').replace(sb.base, '<sandbox>')[:160] if out[0] == 'raised' else None,
                          'scanned': [w for w, t in texts]}
